@@ -50,16 +50,22 @@ def place_demo(wt, sd):
     sub = "field" if pkg.startswith("field") else "."
     dst = os.path.join(wt, sub, "zz_seed_demo_test.go")
     shutil.copy(demo, dst)
-    name = re.search(r"func (Test\w+)\(", open(demo).read()).group(1)
-    return dst, name, "./field" if sub == "field" else "."
+    text = open(demo).read()
+    name = re.search(r"func (Test\w+)\(", text).group(1)
+    m = re.search(r"-run\s+'?\^?(Test\w+)", text[:1500])      # the author's own command, when the file states one
+    if m and ("func %s(" % m.group(1)) in text:
+        name = m.group(1)
+    tags = re.search(r"-tags\s+(\w+)", text[:1500])
+    return dst, name, ("./field" if sub == "field" else "."), (tags.group(1) if tags else None)
 
 
 def verify(sd):
     res = {"dir": sd}
     wt = scratch()
     try:
-        dst, name, pkg = place_demo(wt, sd)
-        rc, out = sh(["go", "test", "-vet=off", "-count=1", "-run", "^" + name + "$", pkg], cwd=wt, env=GOENV)
+        dst, name, pkg, tags = place_demo(wt, sd)
+        tagargs = ["-tags", tags] if tags else []
+        rc, out = sh(["go", "test", "-vet=off", "-count=1"] + tagargs + ["-run", "^" + name + "$", pkg], cwd=wt, env=GOENV)
         res["demo_passes_without_change"] = rc == 0
         os.remove(dst)
         rc, out = sh(["git", "apply", os.path.join(sd, "patch.diff")], cwd=wt)
@@ -70,10 +76,10 @@ def verify(sd):
         res["suite_passes_with_change"] = rc == 0
         if rc != 0:
             res["suite_output"] = out[-800:]
-        dst, name, pkg = place_demo(wt, sd)
-        rc, out = sh(["go", "test", "-vet=off", "-count=1", "-run", "^" + name + "$", pkg], cwd=wt, env=GOENV)
+        dst, name, pkg, tags = place_demo(wt, sd)
+        rc, out = sh(["go", "test", "-vet=off", "-count=1"] + tagargs + ["-run", "^" + name + "$", pkg], cwd=wt, env=GOENV)
         res["demo_fails_with_change"] = rc != 0
-        res["demo"] = name
+        res["demo"] = name + (" (-tags %s)" % tags if tags else "")
     finally:
         drop(wt)
     res["confirmed"] = all(res.get(k) for k in ("demo_passes_without_change", "patch_applies", "builds", "suite_passes_with_change", "demo_fails_with_change"))
